@@ -126,6 +126,15 @@ def geometry_exact(files, dims):
 # (RescaleSlope, RescaleIntercept): integral and dyadic fractional values (float arithmetic of the rescale is exact)
 RESCALES = [(None, None), (None, None), (1, 0), (2, -3), (3, None), (None, 10), (1, -7), (0.5, None), (0.25, 0.5), (1.5, -2), (20, None)]
 
+# explicit ordering keys (stacklib value rules: integers for the *Number(s) / Identifier tags, floats otherwise)
+TIME_KEYS = ['TriggerTime', 'EchoTime', 'InversionTime', 'AcquisitionNumber', 'InstanceNumber', 'FlipAngle']
+VEC_KEYS = ['EchoNumbers', 'TemporalPositionIdentifier', 'FlipAngle']
+# keys the time guess may rest on; those after RepetitionTime in sort_guesses only when RepetitionTime cannot form a grid of its own
+GUESS_EARLY = ['EchoTime', 'InversionTime']
+GUESS_LATE = ['FlipAngle', 'TriggerTime', 'AcquisitionNumber', 'InstanceNumber']
+# RepetitionTime values exactly representable in float32 (pixdim)
+TR_VALUES = [2000.0, 500.0, 750.0, 40.0, 1234.5, 3000.25, 8000.0, 12.125, 65.0, 2500.0]
+
 ACQ_PATTERNS = ['ascending', 'descending', 'interleaved', 'irregular', 'equal', 'inconsistent', 'missing', 'none_in_some', 'one_bad']
 TR_VARIANTS = ['unique', 'unique', 'varying', 'absent', 'some']
 PHASE_VARIANTS = ['ROW', 'COL', 'ROW', 'COL', 'varying', 'absent', 'some', 'other']
@@ -154,12 +163,14 @@ def acq_offsets(rng, pattern, S):
 def make_stack_case(rng, S, T, V, orient='ax', direction=1, gap=2.0, origin=(0., 0., 0.), rows=2, cols=3, ps=(1.0, 1.0),
                     zs=None, mode=None, bits=12, pixrep=0, slope=None, intercept=None, acq='missing', tr='unique',
                     phase='ROW', vo='LAS', vo2=None, tagrules=None, consts=None, kind=None, shuffle=True, alloc=16,
-                    pixmix=None, bad_vol=None):
+                    pixmix=None, bad_vol=None, time_key=None, vec_key=None, tr_value=2000.0,
+                    tm_style=None):
     """One complete S x T x V grid as a conversion case.  mode: None (chosen from the dims) | 'none' | 'guess' | 'time' |
     'vec' | 'timevec'.  Extra `tagrules` / `consts` are passed to stacklib.make_grid (stacklib rule names).
     Pixel format: `bits`, `pixrep`, `slope`, `intercept`, `alloc` (BitsAllocated 8 | 16 | 32) apply to every file;
     acq='one_bad': every volume has the (regular, ascending) pattern except volume number `bad_vol` = t + T * v
     (random when None), whose slices were acquired in the opposite order.
+    `tm_style`: None (HHMMSS.ffffff) | 'trim' | 'colon' | 'full' | 'mixed' (per file) - the TM form of AcquisitionTime.
     `pixmix` = a list drawn from {'rescale', 'bits', 'sign', 'alloc'} makes that aspect differ BETWEEN the files."""
     if mode is None:
         mode = 'timevec' if (V > 1 and T > 1) else 'vec' if V > 1 else rng.choice(['guess', 'time']) if T > 1 else rng.choice(['none', 'time'])
@@ -167,13 +178,15 @@ def make_stack_case(rng, S, T, V, orient='ax', direction=1, gap=2.0, origin=(0.,
     cs = dict(consts or {})
     time_order = vector_order = None
     if mode in ('time', 'timevec'):
-        rules.setdefault('TriggerTime', 't')
-        time_order = {'key': 'TriggerTime', 'abs': None}
+        tkey = time_key or 'TriggerTime'
+        rules.setdefault(tkey, 't')
+        time_order = {'key': tkey, 'abs': None}
     if mode in ('vec', 'timevec'):
-        rules.setdefault('EchoNumbers', 'v')
-        vector_order = {'key': 'EchoNumbers', 'abs': None}
+        vkey = vec_key or 'EchoNumbers'
+        rules.setdefault(vkey, 'v')
+        vector_order = {'key': vkey, 'abs': None}
     if mode == 'guess':
-        rules.setdefault('EchoTime', 't')
+        rules.setdefault(time_key or 'EchoTime', 't')
     files = sl.make_grid(rng, S, T, V, 'ax', 1, 1.0, (0., 0., 0.), rows, cols, ps, rules, cs)
     iop = ALL_ORIENTS[orient]
     nrm = cross(iop[3:6], iop[0:3])
@@ -247,13 +260,16 @@ def make_stack_case(rng, S, T, V, orient='ax', direction=1, gap=2.0, origin=(0.,
             base = 36000 + 4 * (t + T * v)
             o = offs_bad[s] if ((acq == 'inconsistent' and (t + T * v) % 2 == 1) or (acq == 'one_bad' and t + T * v == bad_vol)) else offs[s]
             if not (acq == 'none_in_some' and not some_mask[k]):
-                tags['AcquisitionTime'] = sl.tm_string(base + Fraction(o, 8))
+                tm = sl.tm_string(base + Fraction(o, 8))
+                if tm_style is not None:
+                    tm = sl.tm_restyle(tm, rng.choice(['trim', 'colon', 'full']) if tm_style == 'mixed' else tm_style)
+                tags['AcquisitionTime'] = tm
         if tr == 'unique':
-            tags['RepetitionTime'] = 2000.0
+            tags['RepetitionTime'] = float(tr_value)
         elif tr == 'varying':
-            tags['RepetitionTime'] = 500.0 if k % 2 else 2000.0
+            tags['RepetitionTime'] = 500.0 if k % 2 else float(tr_value)
         elif tr == 'some' and some_mask[k]:
-            tags['RepetitionTime'] = 750.0
+            tags['RepetitionTime'] = float(tr_value)
         if phase in ('ROW', 'COL'):
             tags['InPlanePhaseEncodingDirection'] = phase
         elif phase == 'varying':
@@ -271,7 +287,7 @@ def make_stack_case(rng, S, T, V, orient='ax', direction=1, gap=2.0, origin=(0.,
             'vo': vo, 'exact': bool(exact), 'dims': [S, T, V],
             'info': {'orient': orient, 'direction': direction, 'mode': mode, 'acq': acq, 'tr': tr, 'phase': phase,
                      'bits': bits, 'pixrep': pixrep, 'slope': slope, 'intercept': intercept, 'alloc': alloc,
-                     'pixmix': pixmix, 'bad_vol': bad_vol}}
+                     'pixmix': pixmix, 'bad_vol': bad_vol, 'time_key': time_key, 'vec_key': vec_key, 'tm_style': tm_style}}
     den = 1
     for f in files:
         for row in true_pixels(f):
@@ -295,7 +311,7 @@ def gen_stack_case(rng, tier, **over):
     exactish = kw['orient'] in EXACT_ORIENTS and rng.random() < 0.9
     kw['gap'] = rng.choice([0.5, 1.0, 2.0, 2.5, 3.0]) if exactish else rng.choice([1.1, 0.7, 2.0])
     kw['origin'] = [rng.choice([-8., -1.5, 0., 4., 16.25]) for _ in range(3)]
-    kw['rows'], kw['cols'] = rng.choice([(2, 3), (3, 2), (2, 4), (3, 4), (3, 3), (2, 2)])
+    kw['rows'], kw['cols'] = rng.choice([(2, 3), (3, 2), (2, 4), (3, 4), (3, 3), (2, 2), (4, 2), (5, 3), (4, 6), (6, 5), (2, 7)])
     kw['ps'] = rng.choice([[1.0, 1.0], [0.5, 0.75], [2.0, 2.0], [0.25, 1.5]]) if exactish else rng.choice([[0.7, 0.9], [1.0, 1.0]])
     kw['zs'] = rng.choice([None, 1.5, 3.0, 0.5])
     kw['pixrep'] = rng.choice([0, 0, 1])
@@ -306,10 +322,21 @@ def gen_stack_case(rng, tier, **over):
     kw['acq'] = rng.choice(ACQ_PATTERNS)
     kw['tr'] = rng.choice(TR_VARIANTS)
     kw['phase'] = rng.choice(PHASE_VARIANTS)
-    orders = QUICK_ORDERS if not big else CODES48
-    kw['vo'] = rng.choice(orders + orders + ['', None])
-    kw['vo2'] = rng.choice(orders + [''])
+    kw['vo'] = rng.choice(CODES48 + CODES48 + ['', '', '', None, None]) if rng.random() < 0.85 else rng.choice(CODES48).lower()
+    kw['vo2'] = rng.choice(CODES48 + ['', ''])
+    kw['tr_value'] = rng.choice(TR_VALUES)
+    kw['vec_key'] = rng.choice(VEC_KEYS)
+    kw['time_key'] = rng.choice([k for k in TIME_KEYS if k != kw['vec_key']])
     kw.update(over)
+    if kw.get('mode') == 'guess' or (kw.get('mode') is None and kw['V'] == 1 and kw['T'] > 1 and rng.random() < 0.5):
+        kw['mode'] = 'guess'
+        kw['time_key'] = rng.choice(GUESS_EARLY + (GUESS_LATE if kw['tr'] != 'varying' else []))
+    elif kw.get('mode') is None and kw['V'] == 1 and kw['T'] > 1:
+        kw['mode'] = 'time'
+    if 'tm_style' not in kw and kw.get('mode') != 'guess' and rng.random() < 0.35:
+        # other valid TM forms (HH, HHMM, HHMMSS, fewer fraction digits, colons); not when the time key is guessed:
+        # AcquisitionTime is a guess key compared as a STRING, and mixed forms do not sort like times
+        kw['tm_style'] = rng.choice(['trim', 'colon', 'mixed', 'mixed'])
     try:
         return make_stack_case(rng, **kw)
     except ValueError:
@@ -543,29 +570,62 @@ def locate_files(case, shape, flat):
     return out
 
 
-def run_conversion_case(dcmstack, case):
-    """The observation shared by C02 and the C20 header part."""
+def stack_state(st, wid):
+    """The ONE place that reads DicomStack's private state (order of _files_info, _shape_dirty); only passed through to
+    the Coq literal for the state-machine correspondences that need it - no check of C02 / C20 compares it.  A missing
+    attribute gives (None, None), never a crash of the case."""
+    try:
+        return [wid[id(fi[0])] for fi in st._files_info], bool(st._shape_dirty)
+    except Exception:
+        return None, None
+
+
+def reported_transform(img):
+    """meta_ext.reorient_transform of a conversion result made with embed_meta=True, as nested float lists"""
     import numpy as np
+    for ext in img.header.extensions:
+        if hasattr(ext, 'reorient_transform'):
+            return [[float(x) for x in row] for row in np.asarray(ext.reorient_transform, dtype=np.float64).tolist()]
+    raise ValueError('no DcmMeta extension in the result')
+
+
+def run_conversion_case(dcmstack, case):
+    """The observation shared by C02 and the C20 header part: to_nifti(vo, embed_meta=False) (array, dtype, affine, header,
+    slice-time argument), the same conversion with embed_meta=True (its image and the REPORTED reorientation transform),
+    and a second voxel order for the invariance clause."""
+    den = int(case.get('den', 1))
     dss = [build_ds(f) for f in case['files']]
     absf = [abstract_gfile(dcmstack, f, ds, case) for f, ds in zip(case['files'], dss)]
     st, wid, img, err, calls = run_to_nifti(dcmstack, case, False, None, datasets=dss)
-    obs = {'files': absf, 'ids': [wid[id(fi[0])] for fi in st._files_info], 'dirty': bool(st._shape_dirty),
-           'ncalls': len(calls), 'stimes_arg': calls[-1] if calls else None}
+    ids, dirty = stack_state(st, wid)
+    obs = {'files': absf, 'ids': ids if ids is not None else [], 'dirty': bool(dirty), 'state_ok': ids is not None,
+           'stimes_arg': calls[-1] if calls else None}
     if err is not None:
         obs['err'] = err          # (the key is present only when to_nifti raised)
     if img is not None:
         try:
-            obs.update(observe_image(img, int(case.get('den', 1))))
+            obs.update(observe_image(img, den))
         except Exception as e:
             # e.g. voxels that were never written (np.empty garbage): the image is not a rearrangement of the sources
             obs['err'] = 'ECrash:unobservable-image(%s)' % type(e).__name__
+    if obs.get('err') is None:
+        # the reported transform lives in the meta-data extension only
+        _, _, img3, err3, _ = run_to_nifti(dcmstack, case, True, None, datasets=[build_ds(f) for f in case['files']])
+        if err3 is not None:
+            obs['emb'] = {'err': err3}
+        else:
+            try:
+                o3 = observe_image(img3, den)
+                obs['emb'] = {'shape': o3['shape'], 'data': o3['data'], 'affine': o3['affine'], 'T': reported_transform(img3)}
+            except Exception as e:
+                obs['emb'] = {'err': 'ECrash:unobservable-image(%s)' % type(e).__name__}
     if 'vo2' in case and obs.get('err') is None:
         dss2 = [build_ds(f) for f in case['files']]
         st2, wid2, img2, err2, calls2 = run_to_nifti(dcmstack, case, False, None, vo=case['vo2'], datasets=dss2)
         obs['alt'] = {} if err2 is None else {'err': err2}
         if img2 is not None:
             try:
-                obs['alt'].update(observe_image(img2, int(case.get('den', 1))))
+                obs['alt'].update(observe_image(img2, den))
             except Exception as e:
                 obs['alt'] = {'err': 'ECrash:unobservable-image(%s)' % type(e).__name__}
     return obs
@@ -601,10 +661,13 @@ def coq_case(case, obs):
     if not isinstance(obs, dict) or 'crash' in obs or 'files' not in obs:
         raise ValueError('implementation crashed: %r' % (obs,))
     gs = [obs['files'][i] for i in case['add_order']]
-    return '(mkcase %s %s %s %s %s %s %s %s)' % (
+    emb = obs.get('emb') or {}
+    T = emb.get('T')
+    return '(mkcase %s %s %s %s %s %s %s %s %s)' % (
         cbool(case.get('time_order') is not None), cbool(case.get('vector_order') is not None),
         clist(coq_gfile(a) for a in gs), copt(case.get('vo'), cstr), cbool(bool(case['exact'])),
-        clist(cmat(a['faff']) for a in gs), clist(coq_rescale(a) for a in gs), coq_obs(case, obs))
+        clist(cmat(a['faff']) for a in gs), clist(coq_rescale(a) for a in gs),
+        copt(T, lambda m: clist(clist(cq(x) for x in row) for row in m)), coq_obs(case, obs))
 
 
 # ------------------------------------------------------------------------------------------------
@@ -641,18 +704,6 @@ def file_dtype(spec):
     return 'float64' if (a != 1 or b != 0) else stored_dtype(spec)
 
 
-def expected_dtype(case):
-    """the dtype rule of the property: numpy's promotion of the dtypes of ALL files (so that every rescaled value is
-    representable), unsigned short -> short when no file uses all 16 bits"""
-    import numpy as np
-    names = sorted(set(file_dtype(f) for f in case['files']))
-    j = str(np.result_type(*[np.dtype(n) for n in names]))
-    bits = max(f['bits_stored'] for f in case['files'])
-    if j == 'uint16' and bits < 16:
-        return 'int16'
-    return j
-
-
 def world_content(case, ob):
     """{(world x, y, z, t, v): value} of an observed image"""
     shape, flat, aff = ob['shape'], ob['data'], ob['affine']
@@ -664,19 +715,59 @@ def world_content(case, ob):
     return out
 
 
-def oracle_c02(case, obs):
-    """C02 on the implementation alone.  None = holds on this case."""
-    if not isinstance(obs, dict) or 'crash' in obs:
-        return None
-    if case.get('expect') == 'error':
-        return None
-    if obs.get('err') is not None:
-        return 'complete stack (%s) was not converted: %s' % (case['dims'], obs['err'])
-    exact = bool(case['exact'])
-    shape, flat = obs['shape'], obs['data']
+def crash_message(obs):
+    """rule: a crash observation is never silent"""
+    if not isinstance(obs, dict):
+        return 'crash: the harness returned %r' % (obs,)
+    if 'crash' in obs:
+        return 'crash: unexpected exception %s outside the conversion call (%s)' % (obs.get('crash'), str(obs.get('msg', ''))[:160])
+    return None
+
+
+def not_converted(case, err, how=''):
+    return 'not-converted: complete %dx%dx%d stack was not converted%s: %s' % (tuple(case['dims']) + (how, err))
+
+
+def abstraction_mismatch(case, obs):
+    """The per-file abstraction handed to the Coq model is taken from the library (DicomWrapper, from_dicom_wrapper, default
+    extractor); it must agree with the GENERATOR's ground truth, otherwise model and oracle would judge different inputs."""
+    den = int(case.get('den', 1))
+    for spec, a in zip(case['files'], obs['files']):
+        fid = spec['id']
+        if a.get('gpix') != scaled_pixels(case, spec):
+            return 'abstraction: file %d: DicomWrapper.get_data() is not RescaleSlope x stored + RescaleIntercept' % fid
+        if a.get('stored') != [[int(x) for x in row] for row in spec['pixels']]:
+            return 'abstraction: file %d: stored pixels read back differ from the generated ones' % fid
+        if a.get('gdtype') != file_dtype(spec):
+            return 'abstraction: file %d: single-file image has dtype %s, the data set stores %s' % (fid, a.get('gdtype'), file_dtype(spec))
+        if a.get('gbits') != spec['bits_stored']:
+            return 'abstraction: file %d: BitsStored %r read back as %r' % (fid, spec['bits_stored'], a.get('gbits'))
+        if a.get('gacq') != spec['tags'].get('AcquisitionTime'):
+            return 'abstraction: file %d: AcquisitionTime %r read back as %r' % (fid, spec['tags'].get('AcquisitionTime'), a.get('gacq'))
+        if [Fraction(*x) for x in a['giop']] != [Fraction(x) for x in spec['iop']] or \
+           [Fraction(*x) for x in a['gipp']] != [Fraction(x) for x in spec['ipp']] or \
+           [Fraction(*x) for x in a['gps']] != [Fraction(x) for x in spec['ps']]:
+            return 'abstraction: file %d: orientation / position / spacing read back differ from the generated ones' % fid
+        zs = Fraction(spec['zs']) if spec.get('zs') is not None else Fraction(1)
+        if Fraction(*a['gzs']) != zs:
+            return 'abstraction: file %d: slice thickness %s read back as %s' % (fid, zs, Fraction(*a['gzs']))
+    return None
+
+
+def slice_rank(case, spec):
+    """generator truth: index of a file's slice in its volume when the slices are ordered by increasing position along the
+    slice normal (exact arithmetic on the generated ImagePositionPatient / ImageOrientationPatient)"""
+    vol = [f for f in case['files'] if f['cell'][1:] == spec['cell'][1:]]
+    keys = sorted(sl.pos_key(f) for f in vol)
+    return keys.index(sl.pos_key(spec))
+
+
+def check_values_geometry(case, ob, exact, what=''):
+    """every source pixel exactly once, at a voxel whose world position is the pixel's patient position, in its own volume"""
+    shape, flat = ob['shape'], ob['data']
     npix = sum(f['rows'] * f['cols'] for f in case['files'])
     if len(flat) != npix:
-        return 'values: output has %d voxels for %d source pixels' % (len(flat), npix)
+        return 'values: %soutput has %d voxels for %d source pixels' % (what, len(flat), npix)
     vi = value_index(shape, flat)
     for f in case['files']:
         tp = scaled_pixels(case, f)
@@ -684,68 +775,108 @@ def oracle_c02(case, obs):
             for j in range(f['cols']):
                 hits = vi.get(tp[i][j], [])
                 if len(hits) != 1:
-                    return 'values: pixel (%d,%d) of file %d (rescaled value %s) occurs %d times in the output' % (i, j, f['id'], true_pixels(f)[i][j], len(hits))
-                w = apply_affine(obs['affine'], hits[0])
+                    return 'values: %spixel (%d,%d) of file %d (rescaled value %s) occurs %d times in the output' % (what, i, j, f['id'], true_pixels(f)[i][j], len(hits))
+                w = apply_affine(ob['affine'], hits[0])
                 if not vec_close(w, pixel_world(f, i, j), exact):
-                    return ('geometry: pixel (%d,%d) of file %d sits at voxel %s whose world position %s is not its patient position %s'
-                            % (i, j, f['id'], hits[0], [float(x) for x in w], [float(x) for x in pixel_world(f, i, j)]))
+                    return ('geometry: %spixel (%d,%d) of file %d sits at voxel %s whose world position %s is not its patient position %s'
+                            % (what, i, j, f['id'], hits[0], [float(x) for x in w], [float(x) for x in pixel_world(f, i, j)]))
                 s, t, v = f['cell']
-                if list(hits[0][3:]) != [t, v][:len(shape) - 3] and case['info'].get('mode') != 'custom':
-                    return 'values: file %d of volume (t=%d, v=%d) sits at %s' % (f['id'], t, v, hits[0])
-    try:
-        want = expected_dtype(case)
-    except Exception:
-        want = None              # numpy not importable in the driver: the dtype clause is left to the correspondence
-    if want is not None and (obs['dtype'] != want or obs['array_dtype'] != want):
-        return 'dtype: output dtype %s / %s, expected %s' % (obs['dtype'], obs['array_dtype'], want)
+                if list(hits[0][3:]) != [t, v][:len(shape) - 3]:
+                    return 'values: %sfile %d of volume (t=%d, v=%d) sits at %s' % (what, f['id'], t, v, hits[0])
+    return None
+
+
+def check_transform(case, emb):
+    """the REPORTED reorientation transform maps the index of every voxel of the result to the index the same source pixel
+    has in the unreordered array: (row i, column j, rank of the slice along the slice normal)"""
+    T = [[Fraction(x) for x in row] for row in emb['T']]
+    if len(T) != 4 or any(len(r) != 4 for r in T):
+        return 'transform: the reported reorientation transform is not 4 x 4'
+    vi = value_index(emb['shape'], emb['data'])
+    for f in case['files']:
+        tp = scaled_pixels(case, f)
+        want_s = slice_rank(case, f)
+        for i in range(f['rows']):
+            for j in range(f['cols']):
+                hits = vi.get(tp[i][j], [])
+                if len(hits) != 1:
+                    return None            # the values clause reports this
+                got = apply_affine(emb['T'], hits[0])
+                if got != [i, j, want_s]:
+                    return ('transform: pixel (%d,%d) of file %d (slice %d of its volume) sits at voxel %s; the reported transform maps that to %s'
+                            % (i, j, f['id'], want_s, hits[0][:3], [float(x) for x in got]))
+    return None
+
+
+def oracle_c02(case, obs):
+    """C02 on the implementation alone.  None = holds on this case.  Every clause is evaluated; the first message wins."""
+    m = crash_message(obs)
+    if m:
+        return m
+    msgs = []
+    m = abstraction_mismatch(case, obs)
+    if m:
+        msgs.append(m)
+    if obs.get('err') is not None:
+        msgs.append(not_converted(case, obs['err']))
+        return msgs[0]
+    exact = bool(case['exact'])
+    m = check_values_geometry(case, obs, exact)
+    if m:
+        msgs.append(m)
+    # the reported transform (embed_meta=True run)
+    emb = obs.get('emb')
+    if emb is not None:
+        if emb.get('err') is not None:
+            msgs.append(not_converted(case, emb['err'], ' with embed_meta=True'))
+        else:
+            m = check_values_geometry(case, emb, exact, 'embed_meta=True: ') or check_transform(case, emb)
+            if m:
+                msgs.append(m)
+    # a second voxel order: only axes are permuted / flipped
     alt = obs.get('alt')
     if alt is not None:
         if alt.get('err') is not None:
-            return 'invariance: order %r converts, order %r raises %s' % (case.get('vo'), case['vo2'], alt['err'])
-        if sorted(alt['data']) != sorted(flat):
-            return 'invariance: value multiset differs between orders %r and %r' % (case.get('vo'), case['vo2'])
-        if alt['dtype'] != obs['dtype']:
-            return 'invariance: dtype differs between orders %r and %r' % (case.get('vo'), case['vo2'])
-        w1, w2 = world_content(case, obs), world_content(case, alt)
-        if exact:
-            if w1 != w2:
-                return 'invariance: world-space content differs between orders %r and %r' % (case.get('vo'), case['vo2'])
+            msgs.append('invariance: one voxel order converts, another one raises %s' % alt['err'])
         else:
-            k1, k2 = sorted(w1), sorted(w2)
-            if len(k1) != len(k2):
-                return 'invariance: world-space content differs between orders %r and %r' % (case.get('vo'), case['vo2'])
-            byval1 = {v: k for k, v in w1.items()}
-            byval2 = {v: k for k, v in w2.items()}
-            for v in byval1:
-                if v not in byval2 or not vec_close(byval1[v], byval2[v], False):
-                    return 'invariance: world-space content differs between orders %r and %r' % (case.get('vo'), case['vo2'])
-    return None
+            m = None
+            if sorted(alt['data']) != sorted(obs['data']):
+                m = 'invariance: value multiset differs between two voxel orders'
+            elif alt['dtype'] != obs['dtype'] or alt['array_dtype'] != obs['array_dtype']:
+                m = 'invariance: dtype differs between two voxel orders (%s / %s)' % (obs['dtype'], alt['dtype'])
+            else:
+                w1, w2 = world_content(case, obs), world_content(case, alt)
+                if exact:
+                    if w1 != w2:
+                        m = 'invariance: world-space content differs between two voxel orders'
+                else:
+                    byval1 = {v: k for k, v in w1.items()}
+                    byval2 = {v: k for k, v in w2.items()}
+                    if len(byval1) != len(byval2) or any(v not in byval2 or not vec_close(byval1[v], byval2[v], False) for v in byval1):
+                        m = 'invariance: world-space content differs between two voxel orders'
+            if m:
+                msgs.append(m)
+    return msgs[0] if msgs else None
 
 
 # ------------------------------------------------------------------------------------------------
 # C20 header half: oracle and ready part
 
 def tm_seconds(s):
-    """fixed-format HHMMSS.ffffff -> exact seconds"""
-    return Fraction(int(s[0:2]) * 3600 + int(s[2:4]) * 60 + int(s[4:6])) + Fraction(int(s[7:13]), 1000000)
-
-
-def parallel(u, v, exact):
-    c = cross(u, v)
-    if exact:
-        return all(x == 0 for x in c) and any(x != 0 for x in u) and any(x != 0 for x in v)
-    return all(abs(x) <= Fraction(1, 10 ** 6) for x in c)
+    """any valid TM form -> exact seconds past midnight (stacklib's generator-side reading)"""
+    return sl.tm_seconds(s)
 
 
 def oracle_c20(case, obs):
-    """C20 (header half) on the implementation alone."""
-    if not isinstance(obs, dict) or 'crash' in obs or case.get('expect') == 'error':
-        return None
+    """C20 (header half) on the implementation alone; expected values from the generator's ground truth and from where the
+    unique source values sit in the output array (never from the output affine)."""
+    m = crash_message(obs)
+    if m:
+        return m
     if obs.get('err') is not None:
-        return 'complete stack (%s) was not converted: %s' % (case['dims'], obs['err'])
-    exact = bool(case['exact'])
+        return not_converted(case, obs['err'])
     S, T, V = case['dims']
-    shape, flat, aff = obs['shape'], obs['data'], obs['affine']
+    shape, flat = obs['shape'], obs['data']
     fq, ph, sl_ax = obs['dim_info']
     loc = {}
     vi = value_index(shape, flat)
@@ -754,60 +885,53 @@ def oracle_c20(case, obs):
         h00 = vi.get(tp[0][0], [])
         h10 = vi.get(tp[1][0], []) if f['rows'] > 1 else []
         h01 = vi.get(tp[0][1], []) if f['cols'] > 1 else []
-        if len(h00) != 1:
-            return None          # C02's business
-        loc[f['id']] = (h00[0], h10[0] if len(h10) == 1 else None, h01[0] if len(h01) == 1 else None)
+        if len(h00) != 1 or (f['rows'] > 1 and len(h10) != 1) or (f['cols'] > 1 and len(h01) != 1):
+            # the header clauses are about where the source slices sit: they cannot be judged (borrowed from C02)
+            return 'values: source pixels of file %d are not found exactly once in the output' % f['id']
+        loc[f['id']] = (h00[0], h10[0] if h10 else None, h01[0] if h01 else None)
+    msgs = []
     f0 = case['files'][0]
-    # axis along which the row / column index of a source image runs
+
     def axis_between(a, b):
         d = [k for k in range(3) if a[k] != b[k]]
         return d[0] if len(d) == 1 else None
     p00, p10, p01 = loc[f0['id']]
-    row_axis = axis_between(p00, p10) if p10 is not None else None
-    col_axis = axis_between(p00, p01) if p01 is not None else None
+    row_axis = axis_between(p00, p10) if p10 is not None else None      # array axis along which the ROW index of a source image runs
+    col_axis = axis_between(p00, p01) if p01 is not None else None      # ... the COLUMN index
     # slice axis
     if sl_ax is None:
-        return 'slice-axis: no slice axis recorded'
-    if S > 1:
+        msgs.append('slice-axis: no slice axis recorded')
+    elif S > 1:
         vol0 = [f for f in case['files'] if f['cell'][1] == 0 and f['cell'][2] == 0]
-        axes = set()
-        for f in vol0[1:]:
-            axes.add(axis_between(loc[vol0[0]['id']][0], loc[f['id']][0]))
+        axes = set(axis_between(loc[vol0[0]['id']][0], loc[f['id']][0]) for f in vol0[1:])
         if axes != {sl_ax}:
-            return 'slice-axis: header says axis %s, the files of a volume are stacked along %s' % (sl_ax, sorted(axes, key=str))
-    else:
-        if sl_ax in (row_axis, col_axis) or not (0 <= sl_ax < 3):
-            return 'slice-axis: header says axis %s, which is an in-plane axis (rows along %s, columns along %s)' % (sl_ax, row_axis, col_axis)
-    # freq / phase
+            msgs.append('slice-axis: header says axis %s, the files of a volume are stacked along %s' % (sl_ax, sorted(axes, key=str)))
+    elif sl_ax in (row_axis, col_axis) or not (0 <= sl_ax < 3):
+        msgs.append('slice-axis: header says axis %s, which is an in-plane axis (rows along %s, columns along %s)' % (sl_ax, row_axis, col_axis))
+    # freq / phase: InPlanePhaseEncodingDirection ROW = phase encoding along a row of the source image = the direction in
+    # which its COLUMN index grows; COL = along a column = the direction of the ROW index
     phases = set(f['tags'].get('InPlanePhaseEncodingDirection') for f in case['files'])
     if len(phases) == 1 and None not in phases and list(phases)[0] not in ('ROW', 'COL'):
         pass             # a value outside the DICOM vocabulary: the property is silent
     elif len(phases) == 1 and None not in phases:
         p = list(phases)[0]
-        iop = [Fraction(x) for x in f0['iop']]
-        rowdir, coldir = iop[0:3], iop[3:6]           # DICOM: direction of a row (= increasing column index), of a column
-        want_ph, want_fq = (rowdir, coldir) if p == 'ROW' else (coldir, rowdir)
-        if fq is None or ph is None:
-            return 'freq-phase: unique phase encoding direction %r but header has freq=%s phase=%s' % (p, fq, ph)
-        A = [[Fraction(x) for x in row] for row in aff]
-        # affine columns are in RAS: compare with the RAS image of the DICOM directions
-        if not parallel([A[r][ph] for r in range(3)], ras(want_ph), exact) or not parallel([A[r][fq] for r in range(3)], ras(want_fq), exact):
-            return 'freq-phase: phase encoding %r: header phase axis %s / freq axis %s do not point along the source directions' % (p, ph, fq)
-    else:
-        if fq is not None or ph is not None:
-            return 'freq-phase: phase encoding direction not unique/present (%s) but header has freq=%s phase=%s' % (sorted(phases, key=str), fq, ph)
+        want_ph, want_fq = (col_axis, row_axis) if p == 'ROW' else (row_axis, col_axis)
+        if want_ph is not None and want_fq is not None and (ph != want_ph or fq != want_fq):
+            msgs.append('freq-phase: phase encoding %r: header has freq=%s phase=%s, the source rows / columns run along array axes %s / %s'
+                        % (p, fq, ph, col_axis, row_axis))
+    elif fq is not None or ph is not None:
+        msgs.append('freq-phase: phase encoding direction not unique / present in every file, but header has freq=%s phase=%s' % (fq, ph))
     # repetition time
     trs = set(f['tags'].get('RepetitionTime') for f in case['files'])
     if len(trs) == 1 and None not in trs:
         if obs['pixdim4'] != list(trs)[0]:
-            return 'tr: all files have RepetitionTime %s, pixdim[4] = %s' % (list(trs)[0], obs['pixdim4'])
+            msgs.append('tr: all files have RepetitionTime %s, pixdim[4] = %s' % (list(trs)[0], obs['pixdim4']))
     elif obs['pixdim4'] != 1.0:
-        return 'tr: RepetitionTime values %s, pixdim[4] = %s' % (sorted(trs, key=str), obs['pixdim4'])
+        msgs.append('tr: RepetitionTime is not the same in all files, pixdim[4] = %s' % obs['pixdim4'])
     # slice times
     acqs = [f['tags'].get('AcquisitionTime') for f in case['files']]
     arg = obs.get('stimes_arg')
-    if obs.get('ncalls', 0) > 1:
-        return 'slice-times: set_slice_times called %d times' % obs['ncalls']
+
     def rel_by_output_slice(t, v):
         vol = [f for f in case['files'] if f['cell'][1] == t and f['cell'][2] == v]
         tmin = min(tm_seconds(f['tags']['AcquisitionTime']) for f in vol)
@@ -816,32 +940,62 @@ def oracle_c20(case, obs):
             k = loc[f['id']][0][sl_ax]
             out[k] = tm_seconds(f['tags']['AcquisitionTime']) - tmin
         return out
-    if arg is not None:
+    m = None
+    if sl_ax is None or not (0 <= sl_ax < 3):
+        pass
+    elif arg is not None:
         if any(a is None for a in acqs):
-            return 'slice-times: recorded although some files have no AcquisitionTime'
-        for v in range(V):
-            for t in range(T):
-                want = rel_by_output_slice(t, v)
-                if len(arg) != S or any(w is None or abs(Fraction(a) - w) > Fraction(1, 10 ** 4) for a, w in zip(arg, want)):
-                    return ('slice-times: recorded %s, but the slices of volume (t=%d, v=%d) were acquired at %s (output slice order)'
-                            % (arg, t, v, [None if w is None else float(w) for w in want]))
-        got = obs.get('stimes_get')
-        if got is not None:
-            want = rel_by_output_slice(0, 0)
-            if len(got) != S or any(abs(Fraction(g) - w) > Fraction(1, 10 ** 3) for g, w in zip(got, want)):
-                return 'slice-times: header decodes to %s, acquisition order says %s' % (got, [float(w) for w in want])
+            m = 'slice-times: recorded although some files have no AcquisitionTime'
+        else:
+            for v in range(V):
+                for t in range(T):
+                    want = rel_by_output_slice(t, v)
+                    if m is None and (len(arg) != S or any(w is None or abs(Fraction(a) - w) > Fraction(1, 10 ** 4) for a, w in zip(arg, want))):
+                        m = ('slice-times: recorded %s, but the slices of volume (t=%d, v=%d) were acquired at %s (output slice order)'
+                             % (arg, t, v, [None if w is None else float(w) for w in want]))
+            got = obs.get('stimes_get')
+            if m is None and got is not None:
+                want = rel_by_output_slice(0, 0)
+                if len(got) != S or any(abs(Fraction(g) - w) > Fraction(1, 10 ** 3) for g, w in zip(got, want)):
+                    m = 'slice-times: header decodes to %s, acquisition order says %s' % (got, [float(w) for w in want])
     else:
         if S > 1 and all(a is not None for a in acqs):
             rels = [rel_by_output_slice(t, v) for v in range(V) for t in range(T)]
             if all(r == rels[0] for r in rels) and any(x != 0 for x in rels[0]):
-                return 'slice-times: consistent non-zero acquisition pattern %s not handed to the header' % [float(x) for x in rels[0]]
-        if obs.get('stimes_get') is not None:
-            return 'slice-times: header carries slice times %s although none were set' % obs['stimes_get']
-    return None
+                m = 'slice-times: consistent non-zero acquisition pattern %s not handed to the header' % [float(x) for x in rels[0]]
+        if m is None and obs.get('stimes_get') is not None:
+            m = 'slice-times: header carries slice times %s although none were set' % obs['stimes_get']
+    if m:
+        msgs.append(m)
+    return msgs[0] if msgs else None
 
 
 def signature_of(msg):
-    return (msg or '').split(':')[0].strip().replace(' ', '-')[:40] or 'conv'
+    """clause + mechanism of a failure, without case data (no dims, voxel orders, file numbers)"""
+    msg = msg or ''
+    tag = msg.split(':')[0].strip()
+    if tag == 'not-converted':
+        cls = msg.rsplit(': ', 1)[-1].replace('ECrash:', '').split('(')[0]
+        return 'not-converted%s/%s' % ('-embed' if 'embed_meta=True' in msg else '', cls)
+    if tag == 'crash':
+        return 'crash/' + msg.split('exception ', 1)[-1].split(' ')[0]
+    if tag == 'values':
+        if 'occurs 0 times' in msg:
+            return 'values/missing'
+        if 'occurs' in msg:
+            return 'values/duplicated'
+        if 'of volume' in msg:
+            return 'values/wrong-volume'
+        return 'values/count'
+    if tag == 'invariance':
+        for k in ('multiset', 'dtype', 'world-space', 'raises'):
+            if k in msg:
+                return 'invariance/' + k
+    if tag == 'slice-times':
+        for k, n in (('recorded although', 'no-acq'), ('recorded', 'wrong-order'), ('decodes', 'decoded'), ('not handed', 'dropped'), ('carries', 'stray')):
+            if k in msg:
+                return 'slice-times/' + n
+    return tag.replace(' ', '-')[:40] or 'conv'
 
 
 def shrink_case(case):
@@ -867,21 +1021,6 @@ def shrink_case(case):
                 f[key] -= 1
                 f['pixels'] = [row[:f['cols']] for row in f['pixels'][:f['rows']]]
             yield c
-
-
-def error_cases(rng, tier):
-    """small stream for the error branches: invalid voxel orders, an incomplete grid"""
-    out = []
-    for vo in ['LLA', 'XYZ', 'LA', 'LASR', 'las ', 'L A']:
-        c = make_stack_case(rng, 2, 1, 1, orient='ax', vo=vo, kind='error-code', acq='ascending')
-        c['expect'] = 'error'
-        out.append(c)
-    c = make_stack_case(rng, 3, 2, 1, orient='sag', vo='LAS', kind='error-incomplete', mode='time')
-    del c['files'][-1]
-    c['add_order'] = [i for i in c['add_order'] if i < len(c['files'])]
-    c['expect'] = 'error'
-    out.append(c)
-    return out
 
 
 # S x T x V shapes with T != V, (X, Y, Z, 1, V) and (X, Y, 1, T, V)
@@ -910,29 +1049,28 @@ class HeaderPart:
         out = []
         # systematic block: every acquisition pattern x flipped / not flipped slice axis
         for acq in ACQ_PATTERNS:
-            for vo in ['LAS', 'LAI', 'ASL', '']:
+            for vo in rng.sample(CODES48, 3) + ['']:
                 for orient in ['ax', 'sag']:
-                    out.append(gen_stack_case(rng, tier, S=3, T=2, V=1, acq=acq, vo=vo, orient=orient, kind='hdr-' + acq))
+                    out.append(gen_stack_case(rng, tier, S=rng.choice([3, 4, 5]), T=2, V=1, acq=acq, vo=vo, orient=orient, kind='hdr-' + acq))
         # the consistency condition over the WHOLE T x V grid: exactly one volume with another acquisition pattern, at every
         # position (first / last time point, vector index 0 / >= 1), incl. shapes (X, Y, Z, 1, V); the regular pattern of the
         # other volumes is one nibabel can encode
         for (S, T, V) in GRID_DIMS:
-            out.append(gen_stack_case(rng, tier, S=S, T=T, V=V, acq='ascending', vo=rng.choice(['LAS', 'LAI', '']),
+            out.append(gen_stack_case(rng, tier, S=S, T=T, V=V, acq='ascending', vo=rng.choice(CODES48 + ['']),
                                       orient=rng.choice(['ax', 'sag', 'cor']), kind='hdr-grid-consistent'))
             for bad in range(T * V):
-                for vo in (['LAS'] if tier == 'quick' and T * V > 4 else ['LAS', 'LAI']):
+                for vo in ([rng.choice(CODES48)] if tier == 'quick' and T * V > 4 else rng.sample(CODES48, 2)):
                     out.append(gen_stack_case(rng, tier, S=S, T=T, V=V, acq='one_bad', bad_vol=bad, vo=vo,
                                               orient=rng.choice(['ax', 'sag', 'cor', 'dd']), rows=2, cols=2, kind='hdr-one-bad-volume'))
         while len(out) < n:
             kw = {}
             if rng.random() < 0.7:
-                kw['S'] = rng.choice([2, 3] + ([4, 5] if tier != 'quick' else []))
+                kw['S'] = rng.choice([2, 3, 4, 5] + ([6, 7] if tier != 'quick' else []))
             if rng.random() < 0.6:
                 kw['acq'] = rng.choice(ACQ_PATTERNS[:6])
             c = gen_stack_case(rng, tier, **kw)
             c['kind'] = 'hdr-' + c['info']['acq']
             out.append(c)
-        out += error_cases(rng, tier)
         return out
 
     @staticmethod
@@ -949,8 +1087,10 @@ class HeaderPart:
 
     @staticmethod
     def nontrivial(case, obs):
+        """a header field that depends on the reorientation or on the acquisition pattern is in play"""
         if not isinstance(obs, dict) or obs.get('err') is not None or 'dim_info' not in obs:
-            return case.get('expect') == 'error'
-        return obs['dim_info'][2] != 2 or obs.get('stimes_arg') is not None or obs['ids'] != sorted(obs['ids'])
+            return False
+        fq, ph, sa = obs['dim_info']
+        return sa != 2 or obs.get('stimes_arg') is not None or (fq is not None and (fq, ph) not in ((0, 1), (1, 0)))
 
     shrink = staticmethod(shrink_case)
